@@ -1295,3 +1295,7 @@ mod tests_public_api {
         }
     }
 }
+
+#[cfg(kani)]
+#[path = "/verif/harness/teos/internal_api.rs"]
+mod verif_harness;
